@@ -152,6 +152,26 @@ func judgeTape(x *SeqCtx, sw *sigWorld, tape []byte, what string) *Violation {
 			return &Violation{Prop: c.Prop, Oracle: "restored-content-not-signed", Detail: fmt.Sprintf("%s: restoring %q returns %s without error, signed content is %s", what, r.Name, sumOf(got), want)}
 		}
 	}
+	// the same through the filesystem's streaming read path (Open + Read to EOF):
+	// a consumer that reaches a clean EOF must have received signed content
+	for _, r := range rows {
+		if r.Typeflag != int64(tar.TypeReg) && r.Typeflag != 0 {
+			continue
+		}
+		got, err := ReadAll(st.FS, cleanAbs(r.Name))
+		if err != nil {
+			x.Stats.Add("fs_reads_failed_cleanly", 1)
+			continue
+		}
+		x.Stats.Add("fs_reads_succeeded", 1)
+		want, ok := sw.content[paxOf(r)[paxSig]]
+		if !ok {
+			want = sumOf(nil)
+		}
+		if sumOf(got) != want {
+			return &Violation{Prop: c.Prop, Oracle: "read-content-not-signed", Detail: fmt.Sprintf("%s: reading %q through the filesystem reaches EOF without error after %s, signed content is %s", what, r.Name, sumOf(got), want)}
+		}
+	}
 	return nil
 }
 
